@@ -24,6 +24,10 @@ type mutant struct {
 	Replace  string `json:"replace"`
 	Note     string `json:"note"`
 	Patch    string `json:"patch,omitempty"` // alternatively: a unified diff under /verif (seeded/<id>/patch.diff)
+	// ExpectMiss marks a change that lies outside what the check claims to decide
+	// (kept in the matrix so that the limit stays visible); Why says which limit.
+	ExpectMiss bool   `json:"expect_miss,omitempty"`
+	Why        string `json:"why,omitempty"`
 }
 
 func loadMutants() []mutant {
@@ -188,7 +192,13 @@ func selftestSensitivity(args []string) int {
 	for _, r := range results {
 		total++
 		status := "MISSED"
-		if r.Killed && r.Replayed {
+		if r.Mutant.ExpectMiss {
+			total--
+			status = "missed-as-documented"
+			if r.Killed {
+				status = "killed (was expected to be missed)"
+			}
+		} else if r.Killed && r.Replayed {
 			killed++
 			status = "killed"
 		} else if r.Killed {
